@@ -31,7 +31,9 @@ Theorem C08_clone :
            vbk v' = vbk src /\
            length ys = length xs /\
            unext u' = unext u + N.of_nat (length xs) /\
-           ufuse u' = None /\ uevents u' = rev (clone_events xs ys) ++ uevents u.
+           ufuse u' = None /\
+           uevents u' = rev (clone_events xs ys) ++ uevents u /\
+           (fixed_backend (vbk src) -> vcap v' = vcap src).
 Proof. exact clone_vec_ok. Qed.
 
 Theorem C08_clone_loop :
@@ -69,8 +71,39 @@ Theorem C08_fresh_ids_distinct :
 Proof. exact fresh_ids_fresh. Qed.
 
 
+(* ---- histories ---- *)
+From AV.Model Require Import Interp.
+From AV.Spec Require Import WorldSpec.
+From AV.Proofs Require Import WorldProofs.
+(** WHOLE HISTORIES: clone / clone_empty / clone_empty_in are part of the history fragment of AV.Props.C01 - in the list specification [WorldSpec.sp_clone] the clone holds NEW values (fresh identities, one Clone event per element in index order), lives in another slot on the same backend kind and the source list is untouched; [C01_history_refines] shows the machine agrees inside any history, so every later operation on either vector leaves the other's list alone (the specification's vectors are separate lists).  Hypothesis [adm_clone]: the contents fit fresh storage of that backend kind - always true for fixed capacity. *)
+Theorem C08_clone_in_histories :
+  forall (c : cfg) (w : world) (st : astate) (v dst : nat) (r : sres),
+         cfg_wf c ->
+         WRep c w st ->
+         ufuse (wuw w) = None ->
+         sp_clone c st (unext (wuw w)) v dst = Some r ->
+         adm_clone c w v -> res_matches c w (exec c (OClone v dst) w) r.
+Proof. exact exec_clone. Qed.
+
+Theorem C08_clone_empty_in_histories :
+  forall (c : cfg) (w : world) (st0 : astate) (dst : nat) (bk : bkind) (v0 : vec) (r : sres),
+         WRep c w st0 ->
+         ufuse (wuw w) = None ->
+         bk_wf bk ->
+         sp_new c st0 (unext (wuw w)) dst bk = Some r ->
+         res_matches c w
+           match mem_build c bk (v0, wuw w) with
+           | Ok _ (v, u) => Ok (0, []) (put_vec dst (Some v) u w)
+           | Panic p (_, u) => Panic p {| wv := wv w; wuw := u |}
+           | Fault f => Fault f
+           end r.
+Proof. exact exec_build. Qed.
+
+(* ---- end histories ---- *)
 Print Assumptions C08_clone.
 Print Assumptions C08_clone_loop.
 Print Assumptions C08_clone_empty.
 Print Assumptions C08_fresh_ids_length.
 Print Assumptions C08_fresh_ids_distinct.
+Print Assumptions C08_clone_in_histories.
+Print Assumptions C08_clone_empty_in_histories.
